@@ -335,6 +335,19 @@ class Check:
     def disagree(self, case, model, impl, relation: str):
         self.disagreements.append({"relation": relation, "case": case, "model": model, "impl": impl})
 
+    def clause_crashed(self, name: str, e: BaseException):
+        """a sub-clause of a check raised: if the exception comes out of the tree under test it is a
+        broken correspondence (the code now raises where it did not); otherwise it is harness trouble
+        and only noted"""
+        import traceback
+        koreo_src = os.path.join(str(REPO), "src", "koreo")
+        frames = traceback.extract_tb(e.__traceback__)
+        if frames and any(f.filename.startswith(koreo_src) for f in frames[-3:]):
+            self.disagree({"clause": name}, None, f"{type(e).__name__}: {e}",
+                          "clause crashed inside the tree under test")
+        else:
+            self.notes.append(f"{name} not exercised: {e!r}")
+
     def violate(self, case, what: str):
         """the implementation breaks the property on `case` (already minimised if possible)"""
         for cls, pred in self.classifiers.items():
